@@ -3,6 +3,7 @@ package checks
 import (
 	"fmt"
 	"go/ast"
+	"go/constant"
 	"go/types"
 	"sort"
 	"strings"
@@ -246,6 +247,9 @@ func checkC16(p *core.Program, r *core.Report) {
 					wf := fieldType(wi.Wire, w)
 					if !(isUint32(wf) && isUint32(pf)) && !(isUint32Slice(wf) && isUint32Slice(pf)) {
 						idxBad = append(idxBad, fmt.Sprintf("wire field %s has type %s for the %s parameter field %s: encoding/json no longer rejects out-of-range indices", w, wf, pf, f))
+					} else if why := customIndexDecoder(p, wf); why != "" {
+						// a named index type with its own unmarshaller takes the range check away from encoding/json
+						idxBad = append(idxBad, fmt.Sprintf("wire field %s has type %s, which decodes itself: %s", w, wf, why))
 					}
 				}
 			}
@@ -417,4 +421,63 @@ func checkMarshalArgs16(p *core.Program, r *core.Report, ix *funcIndex) {
 		ob.Rule = "O16.6"
 		r.Obs = append(r.Obs, ob)
 	}
+}
+
+// customIndexDecoder: when the (element) type of an index field is a named type with its own UnmarshalJSON/UnmarshalText,
+// encoding/json's built-in uint32 range check no longer applies; the method must then parse at width 32 itself. Returns a
+// reason when it does not (or cannot be seen to), "" otherwise.
+func customIndexDecoder(p *core.Program, t types.Type) string {
+	if sl, ok := types.Unalias(t).Underlying().(*types.Slice); ok {
+		if _, isNamed := types.Unalias(t).(*types.Named); !isNamed {
+			t = sl.Elem()
+		}
+	}
+	n, ok := types.Unalias(t).(*types.Named)
+	if !ok {
+		return ""
+	}
+	for _, m := range []string{"UnmarshalJSON", "UnmarshalText"} {
+		fn := p.MethodOf(types.NewPointer(n), m)
+		if fn == nil {
+			fn = p.MethodOf(n, m)
+		}
+		if fn == nil || fn.Blocks == nil {
+			continue
+		}
+		parsed32 := false
+		var other []string
+		for _, b := range fn.Blocks {
+			for _, in := range b.Instrs {
+				c, ok := in.(*ssa.Call)
+				if !ok {
+					continue
+				}
+				callee := c.Common().StaticCallee()
+				if callee == nil || callee.Pkg == nil {
+					continue
+				}
+				switch callee.String() {
+				case "strconv.ParseUint", "strconv.ParseInt":
+					if k, ok := c.Common().Args[2].(*ssa.Const); ok && k.Value != nil {
+						if bits, exact := constant.Int64Val(k.Value); exact && bits == 32 && callee.Name() == "ParseUint" {
+							parsed32 = true
+						} else {
+							other = append(other, fmt.Sprintf("%s with bit size %d at %s (a value outside 32 bits is accepted and then narrowed)", callee.Name(), bits, p.Pos(c.Pos())))
+						}
+					} else {
+						other = append(other, callee.Name()+" with a non-constant bit size at "+p.Pos(c.Pos()))
+					}
+				case "strconv.Atoi", "encoding/json.Unmarshal", "fmt.Sscanf", "fmt.Sscan", "(*math/big.Int).SetString":
+					other = append(other, callee.String()+" at "+p.Pos(c.Pos())+" (no 32-bit range check)")
+				}
+			}
+		}
+		if len(other) > 0 {
+			return strings.Join(other, "; ")
+		}
+		if !parsed32 {
+			return "its " + m + " does not parse with strconv.ParseUint(…, 32): the 32-bit range check is not visible"
+		}
+	}
+	return ""
 }
